@@ -116,7 +116,7 @@ def gen_site_annotations(rng, site, params, parent):
 
 
 def gen_group(rng, gi):
-    parent = rng.choice(['function', 'function', 'method', 'callback'])
+    parent = rng.choice(['function', 'function', 'method', 'callback', 'function', 'method', 'vfunc'])
     nparams = rng.choice([1, 2, 2, 3, 4])
     params = []
     kinds = [k for k in apigen.KINDS]
@@ -155,6 +155,8 @@ def callable_name(g, suffix):
         return 'foo_fn%d_%s' % (g['gi'], suffix)
     if g['parent'] == 'method':
         return 'foo_rec_m%d_%s' % (g['gi'], suffix)
+    if g['parent'] == 'vfunc':
+        return 'vf%d_%s' % (g['gi'], suffix)
     return 'FooCb%d%s' % (g['gi'], suffix.upper())
 
 
@@ -168,13 +170,21 @@ def render_group(g, hdr, src, rng):
         plist = [(p['sp'], p['name']) for p in g['params']]
         if g['parent'] == 'method':
             plist = [('FooRec *', 'self')] + plist
-        if g['parent'] == 'callback':
+        if g['parent'] == 'vfunc':
+            # a slot of the class structure of FooVobj (declared at the end of the header by run_case)
+            plist = [('FooVobj *', 'self')] + plist
+            if not hasattr(hdr, 'vmembers'):
+                hdr.vmembers = []
+            r = g['ret']['sp']
+            hdr.vmembers.append('  %s(*%s) (%s);' % (r if r.endswith('*') else r + ' ', name, ', '.join(apigen.decl(sp, n) for sp, n in plist)))
+        elif g['parent'] == 'callback':
             r = g['ret']['sp']
             ps = ', '.join(apigen.decl(sp, n) for sp, n in plist) or 'void'
             hdr.add('typedef %s(*%s) (%s);' % (r if r.endswith('*') else r + ' ', name, ps))
         else:
             hdr.add(apigen.render_function(name, g['ret']['sp'], plist))
-        block = {'kind': 'symbol' if g['parent'] != 'callback' else 'type', 'name': name, 'annotations': collections.OrderedDict(),
+        block = {'kind': 'symbol' if g['parent'] != 'callback' else 'type', 'name': name if g['parent'] != 'vfunc' else 'FooVobjClass::' + name,
+                 'annotations': collections.OrderedDict(),
                  'params': [], 'description': ['Callable %s.' % name], 'tags': []}
         sites = g['params'] + [g['ret']]
         for si, s in enumerate(sites):
@@ -184,7 +194,7 @@ def render_group(g, hdr, src, rng):
                     block['tags'].append({'name': 'returns', 'annotations': anns, 'value': None, 'description': ['the result']})
             else:
                 block['params'].append({'name': s['name'], 'annotations': anns, 'description': ['a parameter']})
-        if g['parent'] == 'method':
+        if g['parent'] in ('method', 'vfunc'):
             block['params'].insert(0, {'name': 'self', 'annotations': collections.OrderedDict(), 'description': ['the record']})
         text, info = docgen.render_block(rng, block, {'split_anns': False})
         first = src.add(text)
@@ -396,6 +406,13 @@ def find_callable(ns, g, name):
             if n.get('c:type') == name:
                 return n
         return None
+    if g['parent'] == 'vfunc':
+        for c in ns.findall('class'):
+            if c.get('c:type') == 'FooVobj':
+                for n in c.findall('virtual-method'):
+                    if n.get('name') == name:
+                        return n
+        return None
     for n in ns.iter('function', 'method', 'constructor'):
         if n.get('c:identifier') == name:
             return n
@@ -447,7 +464,12 @@ def run_case(case):
         emitted, annlist = render_group(g, hdr, src, rng)
         groups.append((g, emitted, annlist))
     m0 = dict(scan.mech)
-    lib = apigen.library(headers=[(hdr.filename, hdr.text())], sources=[(src.filename, src.text())])
+    dump = None
+    if getattr(hdr, 'vmembers', None):
+        hdr.add('typedef struct _FooVobj FooVobj;\ntypedef struct _FooVobjClass FooVobjClass;\nstruct _FooVobj {\n  GObject parent_instance;\n};\n'
+                'struct _FooVobjClass {\n  GObjectClass parent_class;\n%s\n};\nGType foo_vobj_get_type (void);' % '\n'.join(hdr.vmembers))
+        dump = '<?xml version="1.0"?>\n<dump>\n  <class name="FooVobj" get-type="foo_vobj_get_type" parents="GObject">\n  </class>\n</dump>\n'
+    lib = apigen.library(headers=[(hdr.filename, hdr.text())], sources=[(src.filename, src.text())], **({'dump': dump} if dump else {}))
     r = scan.scan(lib)
     res = {'mech': {}, 'hits': collections.Counter(), 'classes': [], 'viol': []}
     replay = {'header': hdr.text(), 'source': src.text()}
